@@ -138,15 +138,19 @@ def must_before_success(f, node_pred, null_ok=None):
     return all(not f.cfg.path_exists((f.cfg.entry, -1), lambda e, r=r: e == r, is_barrier=node_pred, removed_edges=removed) for r in rs)
 
 
-def required_resets(ctx, P, rid, only=None):
+def required_resets(ctx, P, rid, only=None, only_paths=None):
     for (fname, unit, path, val) in REQUIRED:
         if only and fname not in only:
+            continue
+        if only_paths and path not in only_paths:
             continue
         f = P.fn(fname, unit)
         ctx.touch(f)
         ss = [s for s in paths.stores(f) if (s["path"] == path or s["spath"] == path) and s["rhs"] is not None and (val is None or f.canon(s["rhs"], subst=False) == val or (val in ("0", "1") and paths.is_const(f, s["rhs"], int(val))))]
         ok = any(must_before_success(f, lambda e, s=s: e == s["node"], null_ok=path.split("->")[0] if "->" in path else None) for s in ss)
         ctx.check(rid, ok, key(f, "reset:" + path), f.where(ss[0]["node"]) if ss else f.where(f.root), "`%s = %s` is no longer performed on every successful path of %s: state of the previous utterance leaks into the next one" % (path, val, fname))
+    if only_paths:
+        return
     for (fname, unit, cal) in REQUIRED_CALLS:
         if only and fname not in only:
             continue
